@@ -100,9 +100,16 @@ def generate(rng, tier, boost):
             cases.append((102, [t, enc, 0]))
             cases.append((102, [t, enc[:-1], 0]))
             cases.append((102, [t, enc[:len(enc) // 2], 1]))
-    for n in [252, 253, 254] + ([0xffff, 0x10000] if (tier == 'thorough' and not boost) else []):
+    for n in [252, 253, 254]:
         t = W.rand_tx(rng, nin=n, nout=1, witness='none')
         cases.append((101, [t, 1])); cases.append((102, [t, W.ser_tx(t), 0]))
+    # the 3-byte / 5-byte CompactSize boundary of a COUNT: 65,535 / 65,536 empty witness items (64 KB)
+    # exercise the same vector code as that many inputs would (2.7 MB, minutes per case in the MODEL)
+    for n in ([0xffff, 0x10000] if big else []):
+        t = W.rand_tx(rng, nin=1, nout=1, witness='all')
+        t[3][0] = [b''] * (n - 1) + [b'\x01']
+        enc = W.ser_tx(t)
+        cases.append((101, [t, 1])); cases.append((102, [t, enc, 0])); cases.append((102, [t, enc[:-5], 0]))
     for n in [0, 1, 252, 253, 0xffff, 0x10000, 0xffffffff, 0x100000000, (1 << 64) - 1]:
         cases.append((105, [n]))
     for k in range(200 if big else 30):
